@@ -166,6 +166,26 @@ CHECKS["C18"] = dict(
     design="DESIGN.md §5 C18",
     technique="Coq proof (product/filter characterisation; structural unfolding of the emitter model) + differential correspondence on parsed generated code")
 
+CHECKS["C19"] = dict(
+    text=("Theorems over the model of the converted content (shared by both languages): every mass/width variable an emitted lineshape "
+          "uses belongs to a particle seen while reading and is declared in the intro unless it is an event-type particle; the two "
+          "coefficient names of an amplitude differ; one declaration per parameter line with the error exactly for free parameters. "
+          "The correspondence parses BOTH generated texts into content (event type, constants, variables, parameter declarations, "
+          "amplitudes with spin factors / lineshapes / counts) and compares each with the model. Executed only: declaration-before-use "
+          "incl. spline / K-matrix arrays, execution of the Python text against a stand-in goofit module, returned string = printed "
+          "text, command-line entry point."),
+    design="DESIGN.md §5 C19",
+    technique="Coq proof (closedness of the generated model over expanded amplitudes) + differential correspondence on both parsed outputs + executed output checks")
+CHECKS["C20"] = dict(
+    text=("Theorems over the session state machine (per-class particle sets with attribute lookup through the class hierarchy, coupling "
+          "configuration, tables of the last read): after ANY history of read / convert calls by any of the three classes, a call returns "
+          "what it returns from the initial state and leaves the same particle sets in its class; calls never touch other classes' sets "
+          "nor the configuration; observation of sets is order-insensitive. Executed: every call of every history vs the same call in a "
+          "fresh interpreter (canonical text), exact replay per hash seed and equivalence across seeds; class-level state after every "
+          "call vs the model."),
+    design="DESIGN.md §5 C20",
+    technique="Coq proof (state-machine frame/independence lemmas) + differential correspondence on class state + fresh-interpreter and hash-seed runs")
+
 NOT_YET = {
 }
 
